@@ -70,7 +70,7 @@ func runPool(mode string, vecs []json.RawMessage, workers int, outPath, tracePat
 	bump := func() {
 		mu.Lock()
 		hangs++
-		if hangs == failBudget {
+		if hangs == failBudget && !limits.Solo { // a confirmation run is small and runs to its end
 			close(abort)
 		}
 		mu.Unlock()
@@ -211,10 +211,10 @@ func runWorker(mode string, vecs []json.RawMessage, mine []int, results []*resul
 			cmd.Process.Kill() // SIGKILL: the worker may be spinning
 			cmd.Wait()
 			return done, "", "aborted"
-		case <-time.After(10 * time.Second):
+		case <-time.After(limits.Silent):
 			cmd.Process.Kill()
 			cmd.Wait()
-			return done, "worker silent for 10s (process-level hang)", ""
+			return done, fmt.Sprintf("worker silent for %v (process-level hang)", limits.Silent), ""
 		}
 		if !ok {
 			break
